@@ -37,6 +37,13 @@ type CarrierU struct {
 	Z   string
 }
 
+// WithHidden has an unexported field: reflection cannot read it, so the struct cannot be represented
+type WithHidden struct {
+	A int32
+	b int32
+	C string
+}
+
 type BadChanStruct struct {
 	N int32
 	C chan int
@@ -101,6 +108,8 @@ func badKinds() []badKind {
 			// two Go types called Inner on one stream; the second has a third field holding a channel
 			return []interface{}{&zoo.Inner{A: 1, S: "a"}, &alt2.Inner{X: 2, Y: "b", Bad: make(chan int)}}
 		}, false},
+		{"struct{unexported field}", func() interface{} { return WithHidden{A: 1, b: 2, C: "c"} }, true},
+		{"*struct{unexported field}", func() interface{} { return &WithHidden{A: 1, b: 2, C: "c"} }, true},
 		{"nil-chan", func() interface{} { var c chan int; return c }, true},
 		{"*nil-chan", func() interface{} { var c chan int; return &c }, true},
 		{"nil-func", func() interface{} { var f func(); return f }, false},
